@@ -35,6 +35,13 @@ inductive FnId where
   | dqHeapify | dqHeapifyMin | dqHeapifyMax | dqBubbleUp | dqBubbleUpMin | dqBubbleUpMax
   | dqUpHeapify | dqHeapBuild | dqFindMax
   | dqFindMin | pqPop | pqRemove | dqPopMin | dqPopMax | dqRemove
+  | storeClear | storeDrain | storeRetainMut | storeAppend | storeSwapRemoveIf | storeChangePriority
+  | storeChangePriorityBy
+  | pqPush | dqPush | pqChangePriority | dqChangePriority | pqChangePriorityBy | dqChangePriorityBy
+  | pqPushIncrease | pqPushDecrease | dqPushIncrease | dqPushDecrease
+  | pqPopIf | dqPopMinIf | dqPopMaxIf | pqPeek | dqPeekMin | dqPeekMax | pqPeekMut | dqPeekMinMut | dqPeekMaxMut
+  | storeFromVec | storeFromIter | storeExtend | storeVisitSeq
+  | pqExtend | dqExtend | pqAppend | dqAppend | pqRetainMut | dqRetainMut | pqRetain | dqRetain
   deriving DecidableEq, Repr
 
 /-- `usize`-valued expressions: pure except for faults -/
@@ -58,6 +65,12 @@ inductive NExpr where
   | heapGetU (site : Nat) (e : NExpr)
   /-- `*qp.get_unchecked(e)` -/
   | qpGetU (site : Nat) (e : NExpr)
+  /-- `self.map.len()` -/
+  | mapLen
+  /-- `other.size` for the second store in value register `ov` -/
+  | otherSize (ov : Var)
+  /-- `v.len()` for the sequence in value register `v` -/
+  | entriesLen (v : Var)
   deriving Repr
 
 /-- priority-valued expressions (`&P`) -/
@@ -77,6 +90,19 @@ inductive BExpr where
   | ltP (a b : PExpr) | gtP (a b : PExpr)
   /-- short-circuit `&&` -/
   | and (a b : BExpr)
+  /-- `f(i, p)` for the user predicate in value register `fv` on the entry `(i, p) = map.get_index_mut2(idx)`: the
+      predicate may rewrite the item and the priority in place -/
+  | predAt (fv idx : Var)
+  /-- `o.is_some()` for the `Option<P>` in value register `v` -/
+  | isSomeV (v : Var)
+  /-- `!b` -/
+  | not (a : BExpr)
+  /-- `self.map.contains_key(&k)` for the item in value register `iv` -/
+  | containsKey (iv : Var)
+  /-- `self.get_priority(&item).map_or(true, |p| priority > *p)`: absent items answer `true` without a comparison -/
+  | prioMapOrGt (iv : Var) (p : PExpr)
+  /-- `self.get_priority(&item).map_or(true, |p| priority < *p)` -/
+  | prioMapOrLt (iv : Var) (p : PExpr)
   deriving Repr
 
 inductive Stmt where
@@ -142,6 +168,75 @@ inductive Stmt where
   | optCallN (v : Var) (f : FnId) (nargs : List NExpr) (tS tN : Stmt)
   /-- `self.store.remove(key).map(|(item, priority, pos)| { body; (item, priority) })` as the function's result -/
   | mapRemoved (key vpos : Var) (body : Stmt)
+  /-- `self.heap.clear()` -/
+  | heapClear
+  /-- `self.qp.clear()` -/
+  | qpClear
+  /-- `self.map.clear()` -/
+  | mapClear
+  /-- `self.size = e` -/
+  | sizeSet (e : NExpr)
+  /-- `Drain { iter: self.map.drain(..) }` as the function's result: the entries leave the map (IndexMap's `Drain` empties
+      it whether it is consumed, dropped or leaked: trusted base); the value records (ghost) the index tables and the
+      size counter at this moment -/
+  | retMapDrain
+  /-- `self.map.retain2(f)` for the user predicate in value register `fv` -/
+  | mapRetain2 (fv : Var)
+  /-- `self.heap = (0..e).map(Index).collect()` -/
+  | heapSetRange (e : NExpr)
+  /-- `self.qp = (0..e).map(Position).collect()` -/
+  | qpSetRange (e : NExpr)
+  /-- the `unwrap` of `let (i, p) = self.map.get_index_mut2(idx).unwrap();` -/
+  | entryMut2 (site : Nat) (idx : NExpr)
+  /-- `map.get_full_mut(key).map(|(index, _, p)| body)` as the function's result (`onNone`: what `None` becomes) -/
+  | getFullMutThen (key vidx : Var) (body onNone : Stmt)
+  /-- `swap(p, &mut x)` where `p` is the priority slot of entry `idx` of the map and `x` a local priority -/
+  | swapSlotPrio (idx : NExpr) (x : Var)
+  /-- `setter(p)` where `p` is the priority slot of entry `idx` of the map -/
+  | applySetterSlot (fv : Var) (idx : NExpr)
+  /-- `Some((p, n))` as the function's result -/
+  | retSomePN (p : PExpr) (n : NExpr)
+  /-- `None : Option<(P, Position)>` as the function's result -/
+  | retNonePN
+  /-- `std::mem::swap(self, other)` for the second store in value register `ov` -/
+  | swapSelfOther (ov : Var)
+  /-- `other.drain()` (through the translated `Store::drain`): the entries go to value register `dst` -/
+  | drainOther (ov dst : Var)
+  /-- `for (k, v) in seq body` for the sequence in value register `src`: the item goes to value register `iv`, the
+      priority to priority register `pv` -/
+  | forEntries (src iv pv : Var) (body : Stmt)
+  /-- `self.map.insert(k, v)` (`IndexMap::insert`: an equal key keeps its slot and its stored item, gets the priority) -/
+  | mapInsert (iv : Var) (p : PExpr)
+  /-- `self.heap.push(Index(e))` -/
+  | heapPush (e : NExpr)
+  /-- `self.qp.push(Position(e))` -/
+  | qpPush (e : NExpr)
+  /-- `self.size += 1` -/
+  | sizeInc
+  /-- `let v = f(nargs, pargs, vargs);` for a translated `f`: the returned value goes to value register `v` -/
+  | callX (v : Var) (f : FnId) (nargs : List NExpr) (pargs : List PExpr) (vargs : List Var)
+  /-- `self.map.get_index(e)` as the function's result -/
+  | retMapGetIndex (e : NExpr)
+  /-- `self.map.get_index_mut2(e).map(|(k, v)| (k, &*v))` as the function's result: slot and entry -/
+  | retMapGetIndexMut2 (e : NExpr)
+  /-- `let mut o = None;` for an `Option<P>` -/
+  | setVNoneP (v : Var)
+  /-- `match self.map.entry(item) { Occupied(e) => occ, Vacant(e) => vac }`: `eidx` receives `e.index()` -/
+  | entryMatch (iv eidx : Var) (occ vac : Stmt)
+  /-- `o = Some(replace(e.get_mut(), p))` for the occupied entry in slot `idx` -/
+  | replaceSlotPrio (ov : Var) (idx : NExpr) (p : PExpr)
+  /-- `e.insert(p)` for the vacant entry of the item in value register `iv` -/
+  | vacantInsert (iv : Var) (p : PExpr)
+  /-- `None : Option<P>` as the function's result -/
+  | retNoneP
+  /-- `Some(p)` as the function's result -/
+  | retSomeP (p : PExpr)
+  /-- `self.store.change_priority(item, p).map(|(r, pos)| { body; r })` as the function's result -/
+  | mapChanged (key : Var) (p : PExpr) (vpos : Var) (body : Stmt)
+  /-- `self.store.change_priority_by(item, setter).map(|pos| { body }).is_some()` as the function's result -/
+  | mapChangedBy (key fv vpos : Var) (body : Stmt)
+  /-- `None : Option<(&mut I, &P)>` as the function's result -/
+  | retNoneSlot
   deriving Repr
 
 /-- a translated function: its `usize` parameters, its priority parameters, its body -/
@@ -149,6 +244,8 @@ structure Fn where
   nparams : List Var
   pparams : List Var
   body : Stmt
+  /-- parameters that are neither `usize` nor `&P` / `P`: items, closures (kept in value registers) -/
+  vparams : List Var := []
   deriving Repr
 
 abbrev Prog := FnId → Option Fn
@@ -163,6 +260,24 @@ inductive Val (P : Type) where
   | optEntry (e : Option (Item × P))
   | optRemoved (r : Option (Item × P × Nat))
   | optNat (r : Option Nat)
+  /-- an item, opaque to the IR -/
+  | item (it : Item)
+  /-- a user predicate `FnMut(&mut I, &mut P) -> bool`: what it answers and what it leaves in the item and the priority -/
+  | pred (f : Item → P → Bool × Item × P)
+  /-- a user setter `FnOnce(&mut P)` -/
+  | setter (g : P → P)
+  | optP (o : Option P)
+  | optPPos (o : Option (P × Nat))
+  | bool (b : Bool)
+  /-- what `drain` hands out: the entries, and (ghost) the index tables and the size counter at the moment the
+      draining iterator is created -/
+  | drained (es : Array (Item × P)) (heap qp : Array Nat) (size : Nat)
+  /-- a second store (`other` of `append`) -/
+  | store (o : Store P)
+  /-- `Option<(&mut I, &P)>`: the slot of the map that is handed out mutably, with its entry -/
+  | optSlot (o : Option (Nat × Item × P))
+  /-- a sequence of (item, priority) pairs: a `Vec`, what an iterator yields, what `drain` hands out -/
+  | entries (a : Array (Item × P))
 
 inductive Flow (P : Type) where
   | normal
@@ -194,9 +309,19 @@ def bindP : List Var → List P → (Var → Option P)
   | v :: vs, x :: xs => upd (bindP vs xs) v (some x)
   | _, _ => fun _ => none
 
+def bindV : List Var → List (Val P) → (Var → Option (Val P))
+  | v :: vs, x :: xs => upd (bindV vs xs) v (some x)
+  | _, _ => fun _ => none
+
 /-! ## expressions -/
 
 def evalN (st : St P) : NExpr → R Nat
+  | .otherSize ov => match st.v ov with
+    | some (.store o) => pure o.size
+    | _ => .error stuck
+  | .entriesLen v => match st.v v with
+    | some (.entries a) => pure a.size
+    | _ => .error stuck
   | .lit n => pure n
   | .var v => pure (st.n v)
   | .add a b => do let x ← evalN st a; let y ← evalN st b; pure (x + y)
@@ -215,13 +340,14 @@ def evalN (st : St P) : NExpr → R Nat
   | .len => pure st.s.size
   | .heapGetU site e => do let i ← evalN st e; getU st.s.heap i site
   | .qpGetU site e => do let i ← evalN st e; getU st.s.qp i site
+  | .mapLen => pure st.s.map.size
 
 def evalNs (st : St P) : List NExpr → R (List Nat)
   | [] => pure []
   | e :: es => do let x ← evalN st e; let xs ← evalNs st es; pure (x :: xs)
 
 /-- the type of the "call a translated function" callback -/
-abbrev CallF (P : Type) := FnId → Store P → List Nat → List P → R (Store P × Val P)
+abbrev CallF (P : Type) := FnId → Store P → List Nat → List P → List (Val P) → R (Store P × Val P)
 
 def evalP (callf : CallF P) (st : St P) : PExpr → R (Store P × P)
   | .var v => match st.p v with
@@ -233,10 +359,17 @@ def evalP (callf : CallF P) (st : St P) : PExpr → R (Store P × P)
     pure (st.s, en.2)
   | .call f args => do
     let xs ← evalNs st args
-    let (s, v) ← callf f st.s xs []
+    let (s, v) ← callf f st.s xs [] []
     match v with
     | .prio p => pure (s, p)
     | _ => .error stuck
+
+/-- the values of the listed value registers -/
+def evalVs (st : St P) : List Var → R (List (Val P))
+  | [] => pure []
+  | v :: vs => match st.v v with
+    | some x => do let xs ← evalVs st vs; pure (x :: xs)
+    | none => .error stuck
 
 def evalPs (callf : CallF P) (st : St P) : List PExpr → R (Store P × List P)
   | [] => pure (st.s, [])
@@ -268,6 +401,39 @@ def evalB (callf : CallF P) (st : St P) : BExpr → R (Store P × Bool)
   | .and a b => do
     let (s, x) ← evalB callf st a
     if x then evalB callf (st.setS s) b else pure (s, false)
+  | .predAt fv idx =>
+    match st.v fv, st.s.map[st.n idx]? with
+    | some (.pred f), some e =>
+      let r := f e.1 e.2
+      pure ({ st.s with map := st.s.map.setIfInBounds (st.n idx) (r.2.1, r.2.2) }, r.1)
+    | _, _ => .error stuck
+  | .isSomeV v =>
+    match st.v v with
+    | some (.optP o) => pure (st.s, o.isSome)
+    | _ => .error stuck
+  | .not a => do
+    let (s, x) ← evalB callf st a
+    pure (s, !x)
+  | .containsKey iv =>
+    match st.v iv with
+    | some (.item it) => pure (st.s, st.s.map.contains it.key)
+    | _ => .error stuck
+  | .prioMapOrGt iv p => do
+    let (s, x) ← evalP callf st p
+    match st.v iv with
+    | some (.item it) =>
+      match s.getPriority it.key with
+      | none => pure (s, true)
+      | some q => pure (s.tick, decide (q < x))
+    | _ => .error stuck
+  | .prioMapOrLt iv p => do
+    let (s, x) ← evalP callf st p
+    match st.v iv with
+    | some (.item it) =>
+      match s.getPriority it.key with
+      | none => pure (s, true)
+      | some q => pure (s.tick, decide (x < q))
+    | _ => .error stuck
 
 /-! ## the candidate selection of `heapify_min` / `heapify_max` -/
 
@@ -297,7 +463,7 @@ def lastMax : List (Nat × P) → Option (Nat × P)
 def keysByPrioAt (callf : CallF P) : Store P → List Nat → R (Store P × List (Nat × P))
   | s, [] => pure (s, [])
   | s, c :: cs => do
-    let (s, v) ← callf .storePrioAt s [c] []
+    let (s, v) ← callf .storePrioAt s [c] [] []
     match v with
     | .prio p => do
       let (s, rest) ← keysByPrioAt callf s cs
@@ -320,6 +486,16 @@ def forDown (body : Nat → St P → R (St P × Flow P)) : Nat → St P → R (S
     | .brk => pure (st, .normal)
     | .ret v => pure (st, .ret v)
 
+/-- `for e in list` -/
+def forList (body : Item × P → St P → R (St P × Flow P)) : List (Item × P) → St P → R (St P × Flow P)
+  | [], st => pure (st, .normal)
+  | e :: es, st => do
+    let (st, fl) ← body e st
+    match fl with
+    | .normal => forList body es st
+    | .brk => pure (st, .normal)
+    | .ret v => pure (st, .ret v)
+
 /-- one level of the interpreter: `rec` runs a statement with one unit of fuel less (used for the next
 iteration of a `while`), `callf` calls a translated function (also with one unit less) -/
 def execStep (rec : Stmt → St P → R (St P × Flow P)) (callf : CallF P) : Stmt → St P → R (St P × Flow P)
@@ -338,14 +514,14 @@ def execStep (rec : Stmt → St P → R (St P × Flow P)) (callf : CallF P) : St
   | .callN v f nargs pargs, st => do
     let xs ← evalNs st nargs
     let (s, ps) ← evalPs callf st pargs
-    let (s, r) ← callf f s xs ps
+    let (s, r) ← callf f s xs ps []
     match r with
     | .nat x => pure ((st.setS s).setN v x, .normal)
     | _ => .error stuck
   | .call f nargs pargs, st => do
     let xs ← evalNs st nargs
     let (s, ps) ← evalPs callf st pargs
-    let (s, _) ← callf f s xs ps
+    let (s, _) ← callf f s xs ps []
     pure (st.setS s, .normal)
   | .ite c t e, st => do
     let (s, b) ← evalB callf st c
@@ -450,7 +626,7 @@ def execStep (rec : Stmt → St P → R (St P × Flow P)) (callf : CallF P) : St
   | .retNone, st => pure (st, .ret (.optNat none))
   | .callV v f nargs, st => do
     let xs ← evalNs st nargs
-    let (s, r) ← callf f st.s xs []
+    let (s, r) ← callf f st.s xs [] []
     pure ((st.setS s).setV v r, .normal)
   | .retV v, st =>
     match st.v v with
@@ -459,13 +635,13 @@ def execStep (rec : Stmt → St P → R (St P × Flow P)) (callf : CallF P) : St
   | .retNoneE, st => pure (st, .ret (.optEntry none))
   | .optCallN v f nargs tS tN, st => do
     let xs ← evalNs st nargs
-    let (s, r) ← callf f st.s xs []
+    let (s, r) ← callf f st.s xs [] []
     match r with
     | .optNat (some x) => execStep rec callf tS ((st.setS s).setN v x)
     | .optNat none => execStep rec callf tN (st.setS s)
     | _ => .error stuck
   | .mapRemoved key vpos body, st => do
-    let (s, r) ← callf .storeRemove st.s [st.n key] []
+    let (s, r) ← callf .storeRemove st.s [st.n key] [] []
     match r with
     | .optRemoved none => pure (st.setS s, .ret (.optEntry none))
     | .optRemoved (some (it, p, pos)) => do
@@ -474,15 +650,148 @@ def execStep (rec : Stmt → St P → R (St P × Flow P)) (callf : CallF P) : St
       | .normal => pure (st, .ret (.optEntry (some (it, p))))
       | _ => .error stuck
     | _ => .error stuck
+  | .heapClear, st => pure (st.setS { st.s with heap := #[] }, .normal)
+  | .qpClear, st => pure (st.setS { st.s with qp := #[] }, .normal)
+  | .mapClear, st => pure (st.setS { st.s with map := #[] }, .normal)
+  | .sizeSet e, st => do
+    let x ← evalN st e
+    pure (st.setS { st.s with size := x }, .normal)
+  | .retMapDrain, st =>
+    pure (st.setS { st.s with map := #[] }, .ret (.drained st.s.map st.s.heap st.s.qp st.s.size))
+  | .mapRetain2 fv, st =>
+    match st.v fv with
+    | some (.pred f) => pure (st.setS { st.s with map := st.s.map.retain f }, .normal)
+    | _ => .error stuck
+  | .heapSetRange e, st => do
+    let x ← evalN st e
+    pure (st.setS { st.s with heap := Array.range x }, .normal)
+  | .qpSetRange e, st => do
+    let x ← evalN st e
+    pure (st.setS { st.s with qp := Array.range x }, .normal)
+  | .entryMut2 site idx, st => do
+    let i ← evalN st idx
+    let _ ← unwrapO (st.s.map.getIndex i) site
+    pure (st, .normal)
+  | .getFullMutThen key vidx body onNone, st =>
+    match st.s.map.getFull (st.n key) with
+    | some (index, _, _) => execStep rec callf body (st.setN vidx index)
+    | none => execStep rec callf onNone st
+  | .swapSlotPrio idx x, st => do
+    let i ← evalN st idx
+    match st.s.map[i]?, st.p x with
+    | some e, some q =>
+      pure ((st.setS { st.s with map := st.s.map.setIfInBounds i (e.1, q) }).setP x e.2, .normal)
+    | _, _ => .error stuck
+  | .applySetterSlot fv idx, st => do
+    let i ← evalN st idx
+    match st.v fv, st.s.map[i]? with
+    | some (.setter g), some e =>
+      pure (st.setS { st.s with map := st.s.map.setIfInBounds i (e.1, g e.2) }, .normal)
+    | _, _ => .error stuck
+  | .retSomePN p n, st => do
+    let (s, x) ← evalP callf st p
+    let y ← evalN (st.setS s) n
+    pure (st.setS s, .ret (.optPPos (some (x, y))))
+  | .retNonePN, st => pure (st, .ret (.optPPos none))
+  | .swapSelfOther ov, st =>
+    match st.v ov with
+    | some (.store o) => pure ((st.setV ov (.store st.s)).setS o, .normal)
+    | _ => .error stuck
+  | .drainOther ov dst, st =>
+    match st.v ov with
+    | some (.store o) => do
+      let (o', r) ← callf .storeDrain o [] [] []
+      match r with
+      | .drained es _ _ _ => pure ((st.setV ov (.store o')).setV dst (.entries es), .normal)
+      | _ => .error stuck
+    | _ => .error stuck
+  | .forEntries src iv pv body, st =>
+    match st.v src with
+    | some (.entries a) =>
+      forList (fun e st => execStep rec callf body ((st.setV iv (.item e.1)).setP pv e.2)) a.toList st
+    | _ => .error stuck
+  | .mapInsert iv p, st => do
+    let (s, x) ← evalP callf st p
+    match st.v iv with
+    | some (.item it) => pure (st.setS { s with map := (s.map.insertFull it x).1 }, .normal)
+    | _ => .error stuck
+  | .heapPush e, st => do
+    let x ← evalN st e
+    pure (st.setS { st.s with heap := st.s.heap.push x }, .normal)
+  | .qpPush e, st => do
+    let x ← evalN st e
+    pure (st.setS { st.s with qp := st.s.qp.push x }, .normal)
+  | .sizeInc, st => pure (st.setS { st.s with size := st.s.size + 1 }, .normal)
+  | .callX v f nargs pargs vargs, st => do
+    let xs ← evalNs st nargs
+    let (s, ps) ← evalPs callf st pargs
+    let vs ← evalVs st vargs
+    let (s, r) ← callf f s xs ps vs
+    pure ((st.setS s).setV v r, .normal)
+  | .retMapGetIndex e, st => do
+    let i ← evalN st e
+    pure (st, .ret (.optEntry (st.s.map.getIndex i)))
+  | .retMapGetIndexMut2 e, st => do
+    let i ← evalN st e
+    pure (st, .ret (.optSlot ((st.s.map.getIndex i).map fun en => (i, en.1, en.2))))
+  | .setVNoneP v, st => pure (st.setV v (.optP none), .normal)
+  | .entryMatch iv eidx occ vac, st =>
+    match st.v iv with
+    | some (.item it) =>
+      match st.s.map.find? it.key with
+      | some i => execStep rec callf occ (st.setN eidx i)
+      | none => execStep rec callf vac st
+    | _ => .error stuck
+  | .replaceSlotPrio ov idx p, st => do
+    let i ← evalN st idx
+    let (s, x) ← evalP callf st p
+    match s.map[i]? with
+    | some e => pure ((st.setS { s with map := s.map.setIfInBounds i (e.1, x) }).setV ov (.optP (some e.2)), .normal)
+    | none => .error stuck
+  | .vacantInsert iv p, st => do
+    let (s, x) ← evalP callf st p
+    match st.v iv with
+    | some (.item it) => pure (st.setS { s with map := s.map.push (it, x) }, .normal)
+    | _ => .error stuck
+  | .retNoneP, st => pure (st, .ret (.optP none))
+  | .retSomeP p, st => do
+    let (s, x) ← evalP callf st p
+    pure (st.setS s, .ret (.optP (some x)))
+  | .mapChanged key p vpos body, st => do
+    let (s, x) ← evalP callf st p
+    let (s, r) ← callf .storeChangePriority s [st.n key] [x] []
+    match r with
+    | .optPPos none => pure (st.setS s, .ret (.optP none))
+    | .optPPos (some (old, pos)) => do
+      let (st, fl) ← execStep rec callf body ((st.setS s).setN vpos pos)
+      match fl with
+      | .normal => pure (st, .ret (.optP (some old)))
+      | _ => .error stuck
+    | _ => .error stuck
+  | .retNoneSlot, st => pure (st, .ret (.optSlot none))
+  | .mapChangedBy key fv vpos body, st =>
+    match st.v fv with
+    | some g => do
+      let (s, r) ← callf .storeChangePriorityBy st.s [st.n key] [] [g]
+      match r with
+      | .optNat none => pure (st.setS s, .ret (.bool false))
+      | .optNat (some pos) => do
+        let (st, fl) ← execStep rec callf body ((st.setS s).setN vpos pos)
+        match fl with
+        | .normal => pure (st, .ret (.bool true))
+        | _ => .error stuck
+      | _ => .error stuck
+    | none => .error stuck
 
 /-- call of a translated function: fresh registers holding the arguments, run the body, take the
 returned value (falling off the end returns `()`) -/
 def callWith (ex : Stmt → St P → R (St P × Flow P)) (prog : Prog) : CallF P :=
-  fun f s nargs pargs =>
+  fun f s nargs pargs vargs =>
     match prog f with
     | none => .error stuck
     | some fn => do
-      let (st, fl) ← ex fn.body { s := s, n := bindN fn.nparams nargs, p := bindP fn.pparams pargs }
+      let (st, fl) ← ex fn.body
+        { s := s, n := bindN fn.nparams nargs, p := bindP fn.pparams pargs, v := bindV fn.vparams vargs }
       match fl with
       | .ret v => pure (st.s, v)
       | .normal => pure (st.s, .unit)
@@ -495,9 +804,9 @@ def exec (prog : Prog) : Nat → Stmt → St P → R (St P × Flow P)
   | fuel + 1, c, st => execStep (exec prog fuel) (callWith (exec prog fuel) prog) c st
 
 /-- run the translated function `f` of `prog` on the store `s` with the given arguments -/
-def run (prog : Prog) (fuel : Nat) (f : FnId) (s : Store P) (nargs : List Nat) (pargs : List P := []) :
-    R (Store P × Val P) :=
-  callWith (exec prog fuel) prog f s nargs pargs
+def run (prog : Prog) (fuel : Nat) (f : FnId) (s : Store P) (nargs : List Nat) (pargs : List P := [])
+    (vargs : List (Val P) := []) : R (Store P × Val P) :=
+  callWith (exec prog fuel) prog f s nargs pargs vargs
 
 end
 end PQ.Src
